@@ -85,13 +85,18 @@ var c05Wheres = []c05Where{
 	{"d.x > 0", func(r Row) bool { return numGT(getPath(r, "d", "x"), 0) }},
 	{"a > 1 AND b < 2", func(r Row) bool { return numGT(getPath(r, "a"), 1) && numLT(getPath(r, "b"), 2) }},
 	{"a IS NULL", func(r Row) bool { return getPath(r, "a") == nil }},
+	{"s LIKE 'a%bc'", func(r Row) bool { v, ok := getPath(r, "s").(string); return ok && ref.Like(v, "a%bc") }},
+	{"s LIKE '%b_c%' AND a > 0", func(r Row) bool {
+		v, ok := getPath(r, "s").(string)
+		return ok && ref.Like(v, "%b_c%") && numGT(getPath(r, "a"), 0)
+	}},
 }
 
 func c05Rows() []Row {
 	var rows []Row
 	as := []any{2, 0, 1.5, nil, c04Missing}
 	ds := []any{map[string]any{"x": 1}, map[string]any{"x": -1, "z": "q"}, map[string]any{}, c04Missing}
-	ss := []any{"x", "y", nil}
+	ss := []any{"x", "y", nil, "abbc", "a-bbc", "abc", "abxbxc", "bbc"}
 	i := 0
 	for _, a := range as {
 		for _, d := range ds {
@@ -435,8 +440,8 @@ func c05Scenarios() []schedScenario {
 func (c05) Describe(tier string) fw.Description {
 	return fw.Description{
 		Level: "model_checking",
-		Rule: "(a) all SELECT lists of 1..2 (thorough 3) distinct items, order significant, from {*, a, a AS x, d.x, d.x AS y, 'lit' AS l, a + 1 AS e, upper(s) AS u, b} x 6 WHERE clauses, each on 60 rows (ints, floats, strings, bools, NULL, missing, nested maps) through EmitSync on one instance (history = all earlier rows), every 7th row also alone on a fresh instance, and through Emit with a sync sink and the result channel (eager deterministic schedule); oracle: produced iff WHERE true, exactly the selected columns with missing sources as NULL, EmitSync == sink == channel, emission order; (b) schedules: 1 producer x 3 rows with a sync sink, an async sink and a channel reader explored with <= bound deviations: sync sink and channel in emission order, async sink as a multiset; non-trivial = the row passes the WHERE",
-		Bounds:      map[string]any{"items_per_select": map[string]int{"quick": 2, "thorough": 3}, "rows": 60, "where": 6, "sched_bound": map[string]int{"quick": 1, "thorough": 2}},
+		Rule: "(a) all SELECT lists of 1..2 (thorough 3) distinct items, order significant, from {*, a, a AS x, d.x, d.x AS y, 'lit' AS l, a + 1 AS e, upper(s) AS u, b} x 8 WHERE clauses (comparisons, AND, IS NULL, LIKE with inner wildcards), each on 160 rows (ints, floats, strings, bools, NULL, missing, nested maps) through EmitSync on one instance (history = all earlier rows), every 7th row also alone on a fresh instance, and through Emit with a sync sink and the result channel (eager deterministic schedule); oracle: produced iff WHERE true, exactly the selected columns with missing sources as NULL, EmitSync == sink == channel, emission order; (b) schedules: 1 producer x 3 rows with a sync sink, an async sink and a channel reader explored with <= bound deviations: sync sink and channel in emission order, async sink as a multiset; non-trivial = the row passes the WHERE",
+		Bounds:      map[string]any{"items_per_select": map[string]int{"quick": 2, "thorough": 3}, "rows": 160, "where": 8, "sched_bound": map[string]int{"quick": 1, "thorough": 2}},
 		Assumptions: []string{"upper(NULL) may be NULL or ''", "block strategy with buffers of 4 in the schedule scenario so that nothing is dropped"},
 	}
 }
